@@ -5,8 +5,8 @@ EXTENDS Integers, Sequences, TLC, Json
 CONSTANT Tier
 VARIABLES cfg, done
 Opt(b, f) == IF b THEN <<f>> ELSE <<>>
-Keys == IF Tier = "q" THEN {<<"k1", "i1", "s1">>, <<"k3072", "multi", "big">>, <<"k2", "ca", "s2">>}
-        ELSE {<<"k1", "i1", "s1">>, <<"k3072", "multi", "big">>, <<"k4096", "long", "80">>, <<"k2", "i2", "00ff">>, <<"k2", "ca", "s2">>}
+Keys == IF Tier = "q" THEN {<<"k1", "i1", "s1">>, <<"k3072", "multi", "big">>, <<"k2", "ca", "s2">>, <<"k1", "sig384", "s1">>}
+        ELSE {<<"k1", "i1", "s1">>, <<"k3072", "multi", "big">>, <<"k4096", "long", "80">>, <<"k2", "i2", "00ff">>, <<"k2", "ca", "s2">>, <<"k1", "sig384", "s1">>, <<"k3072", "sigpss", "7f">>}
 Sizes == IF Tier = "q" THEN {300} ELSE {0, 1, 55, 64, 4096, 65536}
 Init == /\ done = FALSE
         /\ \E t \in {"smime", "cms"}, nsc \in BOOLEAN, nd \in BOOLEAN, nc \in BOOLEAN, ca \in BOOLEAN, k \in Keys, z \in Sizes :
